@@ -461,6 +461,8 @@ pub struct InsertEntity {
 impl InsertEntity {
     fn write(&mut self, conn: &Connection) -> std::result::Result<(), rusqlite::Error> {
         self.node_to_mutate.write(conn)?;
+        #[cfg(feature = "verif")]
+        crate::database::sqlite_database::verif_faults::stmt(conn, 1)?;
 
         for edge in &self.edge_deletions {
             edge.delete(conn)?
